@@ -104,6 +104,11 @@ SHARDS_PER_JOB = 3
 
 # ----------------------------------------------------------------------------------- tolerances
 CRIT_RTOL = 1e-4
+# points where AddJitterOp had to add jitter (condition number 1e11 and more): the value carries round-off of
+# relative size ~1e-5, so only larger steps resolve a derivative, and only to a few per cent; a correct but
+# ill-conditioned computation passes (observed discrepancy <= 3 %), an error by a factor does not
+CRIT_RTOL_JITTER = 0.1
+CRIT_STEPS_JITTER = (0.3, 0.1, 1e-2)
 CRIT_ATOL_REL = 1e-7
 CRIT_STEPS = (1e-3, 1e-4, 1e-2)
 ACQ_RTOL = 1e-3
@@ -118,7 +123,32 @@ VALUE_RTOL = 1e-9
 _TARGET, _COST, _CONSTR = "target", "cost", "constraint"
 
 # ----------------------------------------------------------------------------------- spies
-_SPY = {"installed": False, "jitter_events": 0, "reach": {}}
+_SPY = {"installed": False, "jitter_events": 0, "reach": {}, "last_jitter": 0.0, "bad_jitter": []}
+
+
+def _addjitter_structure(x, sigsq, out, factor, growth):
+    """Documented contract of AddJitterOp: returns ``x + sigsq_final * Id`` with ``sigsq_final`` one of
+    ``sigsq_init, sigsq_init + initial_jitter * growth ** k (k = 0, 1, ...)``, ``initial_jitter =
+    factor * max(mean(diag(x)), 1)``. -> (jitter, problem or None)."""
+    n = out.shape[0]
+    dmat = out - x
+    off = dmat[~np.eye(n, dtype=bool)]
+    if off.size and np.any(off != 0.0):
+        return 0.0, "off_diagonal_changed"
+    shift = np.diag(dmat)
+    c = float(np.median(shift))
+    ulp = 4.0 * float(np.max(np.spacing(np.abs(np.diag(x)) + abs(c))))
+    if np.any(np.abs(shift - c) > ulp):
+        return c - sigsq, "diagonal_shift_not_constant"
+    jit = c - sigsq
+    init = factor * max(1.0, float(np.mean(np.diag(x))))
+    if jit <= 0.5 * init:
+        return (0.0, None) if abs(jit) <= ulp + 1e-6 * init else (jit, "shift_differs_from_sigsq_init_without_jitter")
+    k = math.log(jit / init) / math.log(growth)
+    if k < -1e-3 or abs(jit / (init * growth ** round(k)) - 1.0) > 1e-5 + ulp / jit:
+        return jit, "jitter_not_initial_jitter_times_growth_pow_k"
+    return jit, None
+
 
 
 def _reach(name):
@@ -149,9 +179,16 @@ def _install_spies():
             n = ov.shape[0]
             x = iv[:-1].reshape(n, n)
             extra = float(np.max(np.diag(ov) - np.diag(x) - iv[-1]))
-            thr = 0.5 * kw.get("initial_jitter_factor", custom_op.INITIAL_JITTER_FACTOR) * max(1.0, float(np.mean(np.diag(x))))
+            fac = kw.get("initial_jitter_factor", custom_op.INITIAL_JITTER_FACTOR)
+            thr = 0.5 * fac * max(1.0, float(np.mean(np.diag(x))))
+            _SPY["last_jitter"] = 0.0
             if extra > thr:
                 _SPY["jitter_events"] += 1
+                _SPY["last_jitter"] = extra
+            jit_, problem = _addjitter_structure(x, float(iv[-1]), ov, fac, kw.get("jitter_growth", custom_op.JITTER_GROWTH))
+            if problem and len(_SPY["bad_jitter"]) < 50:
+                _SPY["bad_jitter"].append({"problem": problem, "n": n, "sigsq_init": float(iv[-1]), "diagonal_shift_minus_sigsq_init": jit_,
+                                           "initial_jitter": fac * max(1.0, float(np.mean(np.diag(x))))})
         except Exception:  # noqa: BLE001 - observation must never disturb the run
             _SPY["jitter_events"] += 1
         return out
@@ -193,8 +230,8 @@ SYN_STDS = [1e-13, 1e-11, 5e-11, 1e-10, 2e-10, 1e-9]
 CELLS = [(a, w, m, t) for a in (0, 1) for w in (0, 1) for m in ("scalar", "zero") for t in ("id", "boxcox")]
 SIZES = {
     # crit cases (x points each), acq cases (4 acquisition functions x xpoints each), ops cases
-    "quick": {"crit": 288, "crit_points": 6, "acq": 160, "acq_mcmc": 64, "acq_x": 5, "syn": 144, "ops": 320},
-    "thorough": {"crit": 2400, "crit_points": 6, "acq": 1600, "acq_mcmc": 640, "acq_x": 5, "syn": 1440, "ops": 3200},
+    "quick": {"crit": 288, "crit_sing": 64, "crit_points": 6, "acq": 160, "acq_mcmc": 64, "acq_x": 5, "syn": 144, "ops": 320},
+    "thorough": {"crit": 2400, "crit_sing": 640, "crit_points": 6, "acq": 1600, "acq_mcmc": 640, "acq_x": 5, "syn": 1440, "ops": 3200},
 }
 
 
@@ -222,6 +259,16 @@ def cases(tier, seed):
         )
         if out[-1]["transform"] == "boxcox" and (i // len(CELLS)) % 8 == 5:
             out[-1]["n"] = int(rng.integers(2, 5))  # fewer than 5 targets: lambda stays fixed at its initial value 0.0
+    for i in range(sz["crit_sing"]):
+        # near-singular K + noise * I inside the box: dense grid + duplicated inputs, long length scale,
+        # covariance scale at / near its upper bound, noise at / near its lower bound -> jitter loop
+        out.append(
+            {
+                "kind": "crit", "seed": base + 300000 + i, "n": 0, "d": 1, "ard": i % 2, "warp": 0, "mean": ["scalar", "zero"][(i // 2) % 2],
+                "transform": "id", "points": 4, "enc": "logarithm", "verbose": False, "boxcox_init": None,
+                "singular": {"grid": int(rng.integers(15, 61)), "dup": int(rng.integers(4, 21))},
+            }
+        )
     for i in range(sz["acq"]):
         ard, warp, mean, tr = CELLS[(i * 7 + i // 16) % len(CELLS)]
         npend = int(rng.integers(0, 5)) if i % 4 else int(rng.integers(1, 5))
@@ -236,6 +283,10 @@ def cases(tier, seed):
                 "order": "last" if (i // 2) % 2 else "first",
             }
         )
+        if i % 4 == 1:
+            # re-fit sequence: predictor1 = est.fit_from_state(state1); est.fit_from_state(state2 with more data)
+            out[-1]["refit"] = {"extra": int(rng.integers(1, 9)), "update_params": bool(i % 8 == 1)}
+            out[-1]["refit_keeps_pending"] = bool((i // 8) % 2)
         if i % 8 == 7 or i % 16 == 3:
             # metric reported on a tiny scale (1e-8) with normalisation on: de-normalised predictive
             # std below the 1e-10 floor of get_quantiles at / next to observed points
@@ -281,6 +332,12 @@ def floors(tier):
     f["decided:crit_point:verbose_true"] = 400 * m
     f["decided:crit_point:verbose_false"] = 400 * m
     f["reach:verbose_log_records"] = 1000 * m
+    f["reach:jitter_loop_taken"] = 2000 * m
+    f["crit_points_jitter_loop_taken"] = 40 * m
+    f["decided:crit_grad_under_jitter:noise_variance"] = 50 * m
+    f["decided:op:AddJitterOp_jitter_loop"] = 60 * m
+    f["decided:op:AddJitterOp_jitter_loop_slope"] = 30 * m
+    f["decided:AddJitterOp_output_structure"] = 50000 * m
     # gradient components judged at exact special internal values (bounds, 0.0, 1.0), per parameter kind
     for pc, k in (("noise_variance", 300), ("covariance_scale", 300), ("inverse_bandwidths", 600), ("mean_value", 80),
                   ("boxcox_lambda", 200), ("power_a", 350), ("power_b", 350)):
@@ -303,6 +360,8 @@ def floors(tier):
         f["decided:acq_point:active_not_first:" + a] = 150 * m
         f["decided:acq_point:mcmc_active_not_first:" + a] = 60 * m
     f["decided:acq_point:mcmc"] = 300 * m
+    for a in ("EI", "LCB", "EIpu", "CEI"):
+        f["decided:acq_point:older_predictor_after_refit:" + a] = 40 * m
     for a in ("EI", "EIpu", "CEI"):
         f["decided:acq_point:std_below_floor:" + a] = 120 * m
         f["decided:acq_point:std_at_floor:" + a] = 40 * m
@@ -507,6 +566,7 @@ class _Crit:
         j0 = _SPY["jitter_events"]
         v = self._areg(self.lik, [self.data])
         self.jitter_on_last = _SPY["jitter_events"] > j0
+        self.jitter_level = _SPY["last_jitter"] if self.jitter_on_last else 0.0
         self.evals += 1
         return float(np.reshape(v, (-1,))[0])
 
@@ -549,7 +609,16 @@ def _run_crit(spec, o):
     n, d = spec["n"], spec["d"]
     cell = _cell_name(spec["ard"], spec["warp"], spec["mean"], spec["transform"])
     enc_type = spec.get("enc", "logarithm")
-    X, y, dup = _gen_data(rng, n, d, positive=spec["transform"] == "boxcox")
+    sing = spec.get("singular")
+    if sing:
+        X = np.linspace(0.0, 1.0, sing["grid"]).reshape(-1, 1)
+        X = np.vstack([X, X[rng.integers(0, sing["grid"], size=sing["dup"])]])
+        y = np.sin(3.0 * X[:, 0:1] + rng.uniform(0, 3)) + 0.1 * rng.normal(size=(X.shape[0], 1))
+        y = (y - np.mean(y)) / float(np.std(y))
+        n, dup = X.shape[0], True
+        o.count("crit_cases_singular_arm")
+    else:
+        X, y, dup = _gen_data(rng, n, d, positive=spec["transform"] == "boxcox")
     verbose = bool(spec.get("verbose", False))
     lik, ranges = _make_likelihood(rng, d, spec["ard"], spec["warp"], spec["mean"], spec["transform"], enc_type, spec.get("boxcox_init"))
     lik.reset_params(np.random.RandomState(spec["seed"] % (2**31)))  # what GaussianProcessRegression.__init__ does
@@ -603,6 +672,17 @@ def _run_crit(spec, o):
             regime = "given"
         else:
             vec = np.concatenate([_sample_internal(rng, encs[k], s, regime) for k, s in zip(crit.names, crit.sizes)])
+            if sing:
+                for k_, a_, b_ in zip(crit.names, crit.offsets[:-1], crit.offsets[1:]):
+                    lo_, hi_ = encs[k_].constraints_internal
+                    pc_ = _pclass(k_)
+                    if pc_ == "noise_variance":
+                        vec[a_:b_] = [float(lo_), math.log(2e-9), math.log(10 ** rng.uniform(-9, -8))][int(rng.integers(3))]
+                    elif pc_ == "covariance_scale":
+                        vec[a_:b_] = float(hi_) if rng.random() < 0.6 else math.log(rng.uniform(200.0, 1000.0))
+                    elif pc_ == "inverse_bandwidths":
+                        vec[a_:b_] = math.log(10 ** rng.uniform(-2.0, -1.0))
+                regime = "singular"
         assert vec.shape == (nvec,)
         o.count("crit_points")
         o.ev("crit_point", cell, regime, [float(v) for v in vec])
@@ -614,6 +694,7 @@ def _run_crit(spec, o):
                       {"cell": cell, "enc": enc_type, "vec": vec, "params": crit.names, "error": repr(e)[:300], "n": n, "d": d})
             continue
         jitter = _SPY["jitter_events"] > j0
+        jit0 = _SPY["last_jitter"] if jitter else 0.0
         val = float(np.reshape(val, (-1,))[0])
         grad = np.array(grad, dtype=float).reshape(-1)
         if grad.shape != (nvec,):
@@ -639,11 +720,19 @@ def _run_crit(spec, o):
             o.violate("value_with_gradient_equals_value_alone", "crit_value_differs_from_criterion_plus_priors",
                       {"cell": cell, "with_grad": val, "criterion_plus_priors": byhand, "n_regularizers": nreg, "vec": vec})
         # ---- gradient
-        if jitter or crit.jitter_on_last:
+        if jitter != crit.jitter_on_last:
             o.count("nonsmooth:jitter_added")
-            o.inconclusive("crit_point_jitter_added")
+            o.inconclusive("crit_point_jitter_added_inconsistently")
             obs_sig.append((regime, "jitter"))
             continue
+        if jitter:
+            # jitter loop taken: sigsq_final = sigsq_init + jitter with jitter = 1e-9 * max(1, mean diag K) * 10^k.
+            # Piecewise constant in every parameter except the covariance scale (mean diag K), whose
+            # influence on the jitter the vjp ignores on purpose: that component is not judged; the others
+            # are, on stencils along which the jitter level does not change.
+            o.count("nonsmooth:jitter_added")
+            o.count("crit_points_jitter_loop_taken")
+        rtol_pt = CRIT_RTOL_JITTER if jitter else CRIT_RTOL
         delta = fd.noise_level(crit, vec, rng)
         atol = CRIT_ATOL_REL * max(1.0, abs(val))
         n_held = n_inc = n_viol = 0
@@ -652,20 +741,28 @@ def _run_crit(spec, o):
             e_i = np.zeros(nvec)
             e_i[i] = 1.0
             jit = {"seen": False}
+            pc = _pclass(crit.comp_name(i))
+            if jitter and pc == "covariance_scale":
+                o.count("nonsmooth:jitter_depends_on_covariance_scale")
+                n_inc += 1
+                continue
 
             def phi(t, _e=e_i, _j=jit):
                 v = crit(vec + t * _e)
-                _j["seen"] = _j["seen"] or crit.jitter_on_last
+                # the stencil must stay in the regime of the base point (no jitter / same jitter level)
+                _j["seen"] = _j["seen"] or (abs(crit.jitter_level - jit0) > 1e-6 * max(jit0, 1e-300))
                 return v
 
             gi = float(grad[i])
-            dres = fd.best_of_ladder(phi, CRIT_STEPS, delta, lambda r, _g=gi: (atol + CRIT_RTOL * max(abs(_g) if math.isfinite(_g) else 0.0, abs(r))) / TRUST, f0=alone)
+            dres = fd.best_of_ladder(phi, CRIT_STEPS_JITTER if jitter else CRIT_STEPS, delta, lambda r, _g=gi: (atol + rtol_pt * max(abs(_g) if math.isfinite(_g) else 0.0, abs(r))) / TRUST, f0=alone)
             if jit["seen"]:
                 stencil_jitter = True
                 n_inc += 1
                 continue
-            verdict, tol = _judge(gi, dres, atol, CRIT_RTOL)
-            pc = _pclass(crit.comp_name(i))
+            verdict, tol = _judge(gi, dres, atol, rtol_pt)
+            if jitter and verdict != "inconclusive":
+                o.count("decided:crit_grad_under_jitter")
+                o.count("decided:crit_grad_under_jitter:" + pc)
             sk = _special_kind(encs[crit.comp_name(i)], float(vec[i]))
             if sk and verdict != "inconclusive":
                 o.count("decided:crit_special:" + pc)
@@ -685,7 +782,7 @@ def _run_crit(spec, o):
                 o.count("decided:crit_grad_component")
                 o.violate(
                     "criterion_gradient",
-                    f"crit_grad_mismatch:{pc}:{_ratio_class(gi, dres.value)}{(':at_' + sk) if sk else ''}{vtag}",
+                    f"crit_grad_mismatch:{pc}:{_ratio_class(gi, dres.value)}{(':at_' + sk) if sk else ''}{vtag}{':jitter_loop_taken' if jitter else ''}",
                     {"cell": cell, "verbose": verbose, "special_value": sk, "enc": enc_type, "param": crit.comp_name(i), "component": i, "grad": gi, "richardson": dres.value,
                      "err_estimate": dres.err, "tol": tol, "h": dres.h, "value": val, "n": n, "d": d, "vec": vec},
                 )
@@ -727,12 +824,14 @@ def _run_crit(spec, o):
 
 
 # ===================================================================================== acq
-def _build_state(rng, spec):
+def _build_state(rng, spec, extra=0):
     from syne_tune.config_space import uniform
     from syne_tune.optimizer.schedulers.searchers.utils.hp_ranges_factory import make_hyperparameter_ranges
     from syne_tune.optimizer.schedulers.searchers.bayesopt.utils.test_objects import create_tuning_job_state
 
     n, d, npend = spec["n"], spec["d"], spec["npend"]
+    n1 = n
+    n = n + extra  # rows [0:n1] observed in the first state, [n1:n] observed later, [n:] pending
     hp_ranges = make_hyperparameter_ranges({f"x{i}": uniform(0.0, 1.0) for i in range(d)})
     Xall = rng.uniform(size=(n + npend, d))
     if n >= 3 and rng.random() < 0.1:
@@ -758,6 +857,16 @@ def _build_state(rng, spec):
         g = g - np.min(g[:n]) + 0.02 * (np.std(g) + 0.1)
     configs = [{f"x{i}": float(Xall[r, i]) for i in range(d)} for r in range(n + npend)]
     metrics = [{_TARGET: float(y[r]), _COST: float(cost[r]), _CONSTR: float(g[r])} for r in range(n)]
+    if extra:
+        state2 = create_tuning_job_state(
+            hp_ranges=hp_ranges, cand_tuples=[dict(c) for c in configs[:n]], metrics=[dict(m_) for m_ in metrics],
+            pending_tuples=[dict(c) for c in configs[n:]] if (npend and spec.get("refit_keeps_pending", True)) else None,
+        )
+        state = create_tuning_job_state(
+            hp_ranges=hp_ranges, cand_tuples=[dict(c) for c in configs[:n1]], metrics=[dict(m_) for m_ in metrics[:n1]],
+            pending_tuples=[dict(c) for c in configs[n:]] if npend else None,
+        )
+        return state, hp_ranges, np.vstack([Xall[:n1], Xall[n:]]), state2
     state = create_tuning_job_state(
         hp_ranges=hp_ranges, cand_tuples=[dict(c) for c in configs[:n]], metrics=metrics,
         pending_tuples=[dict(c) for c in configs[n:]] if npend else None,
@@ -795,7 +904,11 @@ def _build_predictor(rng, spec, state, hp_ranges, metric, boxcox, normalize, fit
             p.set_data(_sample_internal(rng, enc, int(np.prod(p.data().shape)), regime))
     j0 = _SPY["jitter_events"]
     pred = est.fit_from_state(state, update_params=bool(fit))
+    _LAST_EST["est"] = est
     return pred, _SPY["jitter_events"] > j0
+
+
+_LAST_EST = {}
 
 
 def _build_predictor_mcmc(rng, spec, state, hp_ranges, metric, normalize, n_states, seed):
@@ -906,11 +1019,16 @@ def _run_acq(spec, o):
     rng = np.random.default_rng([spec["seed"], 2])
     d = spec["d"]
     cell = _cell_name(spec["ard"], spec["warp"], spec["mean"], spec["transform"])
-    state, hp_ranges, Xall = _build_state(rng, spec)
+    refit = spec.get("refit") if not spec.get("mcmc") else None
+    state2 = None
+    if refit:
+        state, hp_ranges, Xall, state2 = _build_state(rng, spec, extra=int(refit["extra"]))
+    else:
+        state, hp_ranges, Xall = _build_state(rng, spec)
     boxcox = spec["transform"] == "boxcox"
     mcmc = bool(spec.get("mcmc"))
     order = spec.get("order", "first")
-    preds, jit_build = {}, {}
+    preds, jit_build, newer = {}, {}, {}
     for k, metric in enumerate((_TARGET, _COST, _CONSTR)):
         bc = boxcox if metric == _TARGET else False
         normalize = (not bc) and (rng.random() < 0.8) if metric != _COST else False
@@ -923,12 +1041,18 @@ def _run_acq(spec, o):
             else:
                 preds[metric], jit_build[metric] = _build_predictor(
                     rng, spec, state, hp_ranges, metric, bc, normalize, spec["fit"], spec["seed"] + k)
+                if refit:
+                    # the SAME estimator (sharing its live gpmodel) is fitted again on a later state with more
+                    # data; the acquisition functions below are built over the OLDER predictor objects
+                    newer[metric] = _LAST_EST["est"].fit_from_state(state2, update_params=bool(refit["update_params"]))
         except Exception as e:  # noqa: BLE001 - building the surrogate is set-up, not the property
             o.inconclusive("acq_predictor_build_failed:" + type(e).__name__)
             o.set_sig(["acq", "build_failed", type(e).__name__], False)
             o.sample = {"kind": "acq", "build_failed": repr(e)[:200]}
             return
     o.count("acq_cases")
+    if refit:
+        o.count("acq_cases:refit")
     o.count("acq_cases:mcmc" if mcmc else ("acq_cases:fit" if spec["fit"] else "acq_cases:random_params"))
     nf = spec["nfant"] if spec["npend"] > 0 else 1
     nstates = {k: len(p.posterior_states) for k, p in preds.items()}
@@ -1185,7 +1309,7 @@ def _run_acq(spec, o):
                 if verdict == "violated":
                     o.violate(
                         "acquisition_gradient",
-                        f"acq_grad_mismatch:{name}:{tag}:{_ratio_class(gi, dres.value)}",
+                        f"acq_grad_mismatch:{name}:{tag}:{_ratio_class(gi, dres.value)}{':older_predictor_after_refit' if refit else ''}",
                         {"acq": name, "component": i, "grad": gi, "richardson": dres.value, "err_estimate": dres.err, "tol": tol, "h": dres.h,
                          "value": v0, "x": x, "cell": cell, "nf": nf, "npend": spec["npend"], "n": spec["n"], "d": d, "fit": spec["fit"],
                          "cei_regime": cei_regime if name == "CEI" else None, "dict_order": "active_" + order, "posterior_states": nstates},
@@ -1206,6 +1330,9 @@ def _run_acq(spec, o):
                         o.count("decided:acq_point:mcmc_active_not_first:" + name)
                 if name == "CEI":
                     o.count("decided:acq_point:CEI:" + cei_regime)
+                if refit:
+                    o.count("decided:acq_point:older_predictor_after_refit")
+                    o.count("decided:acq_point:older_predictor_after_refit:" + name)
                 if n_foreign:
                     o.count("decided:acq_point:after_foreign_predictor_call")
                     o.count("decided:acq_point:after_foreign_predictor_call:" + name)
@@ -1473,11 +1600,17 @@ def _run_ops(spec, o):
         o.violate("custom_op_vjp", f"raised:cholesky_factorization_vjp:{type(e).__name__}", {"error": repr(e)[:300], "n": n, "cond": cond})
 
     # ---- AddJitterOp (no jitter needed: linear map; jitter needed: counted, not judged)
-    psd = rng.random() < 0.25
+    psd = rng.random() < 0.45
     if psd and n >= 2:
         b = rng.normal(size=(n, max(1, n // 2)))
         Xm = b @ b.T  # rank deficient
         sigsq = float(10 ** rng.uniform(-18, -9)) if rng.random() < 0.7 else 0.0
+        if rng.random() < 0.6:
+            # what a kernel / posterior covariance matrix looks like after round-off amplified by bad
+            # conditioning: slightly indefinite; several rounds of the jitter loop are needed
+            nu = float(10 ** rng.uniform(-8, -5)) * max(1.0, float(np.mean(np.diag(Xm))))
+            Xm = Xm - nu * np.eye(n)
+            sigsq = nu * float(rng.uniform(0.05, 0.9))
     else:
         Xm, _ = _rand_spd(rng, n)
         sigsq = float(10 ** rng.uniform(-9, 1))
@@ -1492,8 +1625,43 @@ def _run_ops(spec, o):
         gX = np.array(grad(lambda M: anp.sum(G * custom_op.AddJitterOp(custom_op.flatten_and_concat(M, anp.array([sigsq])))))(Xm))
         gs = np.array(grad(lambda s_: anp.sum(G * custom_op.AddJitterOp(custom_op.flatten_and_concat(Xm, s_))))(np.array([sigsq])))
         if jitter_added:
+            # jitter loop taken: the output must still be x + sigsq_final * Id with sigsq_final from the
+            # documented list and minimal, and (the jitter level being locally constant) depend on
+            # sigsq_init with slope exactly 1 -- which is what the vjp returns (trace(g))
+            import scipy.linalg as spl
+
             o.count("nonsmooth:jitter_added")
-            o.inconclusive("ops_addjitter_jitter_added")
+            o.count("ops_jitter_loop_taken")
+            fac, gro = custom_op.INITIAL_JITTER_FACTOR, custom_op.JITTER_GROWTH
+            jit, problem = _addjitter_structure(Xm, sigsq, np.asarray(out), fac, gro)
+            o.count("decided:op:AddJitterOp_jitter_loop")
+            if problem:
+                o.violate("custom_op_forward", "AddJitterOp_output_not_x_plus_documented_sigsq_final:" + problem,
+                          {"n": n, "sigsq_init": sigsq, "diagonal_shift_minus_sigsq_init": jit, "initial_jitter": fac * max(1.0, float(np.mean(np.diag(Xm))))})
+            else:
+                init = fac * max(1.0, float(np.mean(np.diag(Xm))))
+                prev = sigsq + (jit / gro if jit > 1.5 * init else 0.0)
+                try:
+                    spl.cholesky(Xm + np.diag(np.ones((n,)) * prev), lower=True)
+                    o.violate("custom_op_forward", "AddJitterOp_jitter_not_minimal", {"n": n, "sigsq_init": sigsq, "jitter": jit, "previous_candidate_works": prev})
+                except spl.LinAlgError:
+                    pass
+                hh = 0.05 * jit
+                o1 = np.asarray(custom_op.AddJitterOp(custom_op.flatten_and_concat(Xm, np.array([sigsq + hh]))))
+                o2 = np.asarray(custom_op.AddJitterOp(custom_op.flatten_and_concat(Xm, np.array([sigsq + 2 * hh]))))
+                j1, p1 = _addjitter_structure(Xm, sigsq + hh, o1, fac, gro)
+                j2, p2 = _addjitter_structure(Xm, sigsq + 2 * hh, o2, fac, gro)
+                if p1 or p2 or abs(j1 - jit) > 1e-5 * jit or abs(j2 - jit) > 1e-5 * jit:
+                    o.inconclusive("ops_addjitter_level_changes_on_stencil")
+                else:
+                    slope = float(np.median((np.diag(o2) - np.diag(o1)) / hh))
+                    o.count("decided:op:AddJitterOp_jitter_loop_slope")
+                    if abs(slope - 1.0) > 1e-3:
+                        o.violate("custom_op_vjp", "AddJitterOp_output_slope_wrt_sigsq_init_not_1_when_jitter_added",
+                                  {"slope": slope, "vjp_sigsq": float(gin[n * n]), "trace_g": float(np.trace(G)), "n": n, "sigsq_init": sigsq, "jitter": jit})
+                    if abs(float(gin[n * n]) - float(np.trace(G))) > 1e-10 * (1.0 + float(np.sum(np.abs(np.diag(G))))) or abs(float(gs[0]) - float(gin[n * n])) > 1e-10 * (1.0 + float(np.sum(np.abs(np.diag(G))))):
+                        o.violate("custom_op_vjp", "op_vjp_mismatch:AddJitterOp:sigsq:jitter_loop_taken", {"vjp": float(gin[n * n]), "via_concat": float(gs[0]), "trace_g": float(np.trace(G))})
+                    decided_any = True
             sig.append(("jitter", "added"))
         else:
             scale = float(np.max(np.abs(G))) + 1e-300
@@ -1554,6 +1722,7 @@ def run_case(spec):
     _install_spies()
     o = Obs()
     r0 = dict(_SPY["reach"])
+    jl0, nb0 = _SPY["jitter_events"], len(_SPY["bad_jitter"])
     np.seterr(all="ignore")
     kind = spec["kind"]
     if kind == "crit":
@@ -1567,6 +1736,12 @@ def run_case(spec):
     for k, v in _SPY["reach"].items():
         if v - r0.get(k, 0):
             o.count("reach:" + k, v - r0.get(k, 0))
+    if _SPY["jitter_events"] > jl0:
+        o.count("reach:jitter_loop_taken", _SPY["jitter_events"] - jl0)
+    o.count("decided:AddJitterOp_output_structure", _SPY["reach"].get("AddJitterOp", 0) - r0.get("AddJitterOp", 0))
+    for ev_ in _SPY["bad_jitter"][nb0:][:3]:
+        o.violate("custom_op_forward", "AddJitterOp_output_not_x_plus_documented_sigsq_final:" + ev_["problem"], ev_)
+    del _SPY["bad_jitter"][nb0:]
     if o.sig is None:
         o.set_sig([kind, "aborted"], False)
     return o.result()
